@@ -115,7 +115,8 @@ var floors = map[string][]string{
 	"C11": {"e2e:values-compared"},
 	"C12": {"e2e:values-compared", "tz="},
 	"C14": {"e2e:values-compared"},
-	"C20": {"e2e:streamed-transactions", "held:batches"},
+	"C16": {"charset-pairs", "e2e:several-format-descriptions"},
+	"C20": {"e2e:streamed-transactions", "held:batches", "dotted-names"},
 }
 
 type violation struct {
